@@ -162,8 +162,9 @@ Print Assumptions C07_cp_procs_thread.
        (cp_expr E e = COk ae ...) and that is swap_safe, evaluated from states equal up to the order of footprints:
        if the source evaluation at fuel f is not a failure, the transformed one at any fuel >= 4 f gives the same value /
        control flow in an equivalent state (sim = "ok r -> res_eq R r r'").
-       PARTIAL: excluded by swap_safe (XFrontPreserve.v header): `>` / `<=` with two non-constant operands one of which
-       contains a call; the call spelled 4294967295(..).  The procedure-table hypothesis is discharged for whole programs in
+       PARTIAL: excluded by swap_safe (XFrontPreserve.v header): `>` / `<=` whose RIGHT operand contains a call (or is a
+       string literal) while the left one is not a literal-like constant; the call spelled 4294967295(..).
+       The procedure-table hypothesis is discharged for whole programs in
        theorem 12 (program_PT). *)
 Theorem C07_front_simulation_partial : forall ge ge' : genv, g_vals ge' = g_vals ge ->
   (forall f q, find_proc f (g_procs ge) = Some q -> exists q' E, find_proc f (g_procs ge') = Some q' /\ proc_ok ge ge' q q' E) ->
@@ -189,8 +190,13 @@ Print Assumptions C07_front_globals_same.
        PARTIAL, hypotheses (both decidable, computed by vm_compute in the Examples below):
          names_ok p          no procedure has the empty name (the parser cannot produce one);
          front_swap_safe p   the annotated program is swap_safe (exclusions (1)-(2) in the header of XFrontPreserve.v:
-                             `>` / `<=` between two non-constant operands one of which contains a call; the call
-                             spelled 4294967295(..)).  Covered since: constant comparisons that OptimiseExpr rewrites
+                             `>` / `<=` whose RIGHT operand contains a call or system call (or is a string literal)
+                             while the left operand is not a literal-like constant; the call spelled 4294967295(..)).
+                             `f(x) > y`, `a[g()] <= n` ... are covered (the right operand is call-free: what the left
+                             one changes is in its write footprint -- wsound_all -- and the right one depends only on
+                             what it reads -- rsound_all); `y > f(x)` is not, and cannot be under XSem's rule for an
+                             operand that leaves the program (see the header of XFrontPreserve.v).
+                             Covered since: constant comparisons that OptimiseExpr rewrites
                              after folding (3 ~= 4, k >= 2 with val k ...), and unary minus of a non-constant operand
                              (-x -> 0 - x; by the framing lemma frame_all: an evaluation started with an extra footprint
                              recorded only adds that footprint to its final state).
@@ -274,3 +280,20 @@ Example C07_ex_front_preserves_hyps :
   names_ok XCodegenDemo.demo_src = true /\ front_swap_safe XCodegenDemo.demo_src = true /\
   (exists q, front XCodegenDemo.demo_src = COk q).
 Proof. repeat split. eexists. vm_compute. reflexivity. Qed.
+
+(* which operand swaps front_swap_safe lets through: a function f that writes the global g, called on the LEFT of > / <=
+   with a call-free right operand (a variable, an expression) is inside theorem 12; the same call on the RIGHT of a
+   variable is outside; on the right of a literal it is inside *)
+Definition C07_ex_swap_prog (c : expr) : program :=
+  {| globals := [DVar "g"];
+     procs := [{| is_func := true; pname := "f"; formals := [FVal "x"]; locals := [];
+                  body := SSeq [SAssign "g" (EVar "x"); SReturn (EVar "x")] |};
+               {| is_func := false; pname := "main"; formals := []; locals := [DVar "y"];
+                  body := SSeq [SAssign "y" (ENum 3); SIf c (SSys 0 [ENum 1]) SSkip] |}] |}.
+Example C07_ex_swap_shapes :
+  XSem.wf_program (C07_ex_swap_prog (EBin Gr (ECall "f" [ENum 2]) (EVar "y"))) = None /\
+  front_swap_safe (C07_ex_swap_prog (EBin Gr (ECall "f" [ENum 2]) (EVar "y"))) = true /\
+  front_swap_safe (C07_ex_swap_prog (EBin Le (ECall "f" [ENum 2]) (EBin Plus (EVar "y") (ENum 1)))) = true /\
+  front_swap_safe (C07_ex_swap_prog (EBin Gr (EVar "y") (ECall "f" [ENum 2]))) = false /\
+  front_swap_safe (C07_ex_swap_prog (EBin Gr (ENum 4) (ECall "f" [ENum 2]))) = true.
+Proof. vm_compute. repeat split. Qed.
